@@ -42,6 +42,7 @@ type Cfg struct {
 type File struct {
 	Path    string `json:"path"`
 	Content string `json:"content"`
+	Link    string `json:"link,omitempty"` // non-empty: Path is a symbolic link to this target (relative to the link's directory), Content is unused
 }
 
 // Case is one generator invocation: files on disk, DoFile order, options.
@@ -108,6 +109,12 @@ func Materialise(dir string, files []File) error {
 		p := filepath.Join(dir, f.Path)
 		if err := os.MkdirAll(filepath.Dir(p), 0o755); err != nil {
 			return err
+		}
+		if f.Link != "" {
+			if err := os.Symlink(f.Link, p); err != nil {
+				return err
+			}
+			continue
 		}
 		if err := os.WriteFile(p, []byte(f.Content), 0o644); err != nil {
 			return err
